@@ -20,6 +20,7 @@ const SPELL: [(&str, usize); 26] = [
 const SEPS: [(&str, &str); 5] = [(" ", "a space"), ("", "nothing"), ("\t", "a tab"), ("  ", "two spaces"), ("\u{2009}", "U+2009 thin space")];
 /// (literal, numerator, denominator)
 const SEP_LITS: [(&str, i64, i64); 7] = [("20", 20, 1), ("0", 0, 1), ("0.5", 1, 2), ("273.15", 27315, 100), ("1e2", 100, 1), ("1_000", 1000, 1), ("12\u{2009}345", 12345, 1)];
+const ANS_XS: [(&str, i64, i64); 4] = [("20", 20, 1), ("-40", -40, 1), ("0.5", 1, 2), ("1|3", 1, 3)];
 const CANON: [&str; 6] = ["°C", "°F", "°Ré", "°Rø", "°De", "°N"];
 
 /// textbook affine maps, hard-coded: kelvin = a*x + b
@@ -100,6 +101,8 @@ impl C10 {
         fams.add("dimensioned operand under <s1>, converted to <s2>", vec![DIMMED.len() as u64, s, s]);
         // the output-format modifiers in front of a scale target: the value reported is the same
         fams.add("(x <s1>) -> <modifier> <s2> over the canonical spellings", vec![n, 6, 6, FMT_MODS.len() as u64]);
+        // chains the way a session makes them: through the previous answer, with the public helper
+        fams.add("chains through ans: x <s1> ; ans -> <s2> ; ans -> <s3> on a context that keeps its previous answer", vec![ANS_XS.len() as u64, 6, 6, 6]);
         // the number's own lexical neighbourhood: separators between the literal and the scale
         fams.add("what stands between the number and the scale", vec![SEP_LITS.len() as u64, SEPS.len() as u64, s, 2]);
         C10 { fams, xs, ctx: Lazy::new() }
@@ -128,7 +131,7 @@ impl Space for C10 {
         Meta {
             id: "C10",
             level: "exploration",
-            rule: "rational x (boundary set: 0, +-1, 32, 100, -273.15, -459.67, -500, 1/3, -22/7, a 21-digit fraction, 1e20, ...; thorough adds the grid p/q, |p|<=40, q in {1,2,3,7,10,97}) x all 26 spellings of the six scales: `x <s>` against hard-coded textbook affine maps; `(x <s1>) -> <s2>` for all 26x26 ordered spelling pairs (36 scale pairs, incl. same-scale round trips); chains of three conversions over all 6^3 scale triples; 28 refusal shapes x 26 spellings (dimensioned operand, scale inside a compound target, anything after a scale target: text, a list separator, a second arrow, a bracket, a power; base modifier, non-temperature source); 4 dimensioned operands under every spelling converted to every spelling (26x26, incl. the same scale); 7 literals (plain, fraction, exponent, with `_` and U+2009 digit groups) x 5 separators between number and scale (space, none, tab, two spaces, U+2009 thin space directly after the digits - a thin space elsewhere is not white space in rink's grammar and is not demanded) x 26 spellings, alone and converted to degF; every x and ordered scale pair again under the format modifiers frac / sci / eng / digits / digits 20 / digits 0 in front of the target. Non-trivial = all; distinct by query text".into(),
+            rule: "rational x (boundary set: 0, +-1, 32, 100, -273.15, -459.67, -500, 1/3, -22/7, a 21-digit fraction, 1e20, ...; thorough adds the grid p/q, |p|<=40, q in {1,2,3,7,10,97}) x all 26 spellings of the six scales: `x <s>` against hard-coded textbook affine maps; `(x <s1>) -> <s2>` for all 26x26 ordered spelling pairs (36 scale pairs, incl. same-scale round trips); chains of three conversions over all 6^3 scale triples; 28 refusal shapes x 26 spellings (dimensioned operand, scale inside a compound target, anything after a scale target: text, a list separator, a second arrow, a bracket, a power; base modifier, non-temperature source); 4 dimensioned operands under every spelling converted to every spelling (26x26, incl. the same scale); chains of a session through the previous answer (`x <s1>`, `ans -> <s2>`, `ans -> <s3>` through rink_core::eval on a context that keeps `ans`) for 4 x and all 6^3 scale triples; 7 literals (plain, fraction, exponent, with `_` and U+2009 digit groups) x 5 separators between number and scale (space, none, tab, two spaces, U+2009 thin space directly after the digits - a thin space elsewhere is not white space in rink's grammar and is not demanded) x 26 spellings, alone and converted to degF; every x and ordered scale pair again under the format modifiers frac / sci / eng / digits / digits 20 / digits 0 in front of the target. Non-trivial = all; distinct by query text".into(),
             assumptions: vec!["textbook constants: 273.15, 459.67, 5/9, 5/4, 40/21 & 7.5, 373.15 & 2/3, 100/33".into()],
             exhaustive: true,
             extra: json!({"families": self.fams.summary(), "spellings": SPELL.iter().map(|s| s.0).collect::<Vec<_>>(), "refusal_shapes": REFUSE}),
@@ -145,7 +148,8 @@ impl Space for C10 {
             2 => format!("{} {} -> {} -> {} (chained)", self.xs[d[0] as usize].0, CANON[d[1] as usize], CANON[d[2] as usize], CANON[d[3] as usize]),
             4 => format!("{} {} -> {}", DIMMED[d[0] as usize], SPELL[d[1] as usize].0, SPELL[d[2] as usize].0),
             5 => format!("({} {}) -> {} {}", self.xs[d[0] as usize].0, CANON[d[1] as usize], FMT_MODS[d[3] as usize], CANON[d[2] as usize]),
-            6 => format!("{}{}{}{}", SEP_LITS[d[0] as usize].0, SEPS[d[1] as usize].0, SPELL[d[2] as usize].0, if d[3] == 1 { " -> °F" } else { "" }),
+            6 => format!("{} {} ; ans -> {} ; ans -> {}", ANS_XS[d[0] as usize].0, CANON[d[1] as usize], CANON[d[2] as usize], CANON[d[3] as usize]),
+            7 => format!("{}{}{}{}", SEP_LITS[d[0] as usize].0, SEPS[d[1] as usize].0, SPELL[d[2] as usize].0, if d[3] == 1 { " -> °F" } else { "" }),
             _ => REFUSE[d[0] as usize].replace("{s}", SPELL[d[1] as usize].0),
         }
     }
@@ -188,6 +192,40 @@ impl Space for C10 {
                 }
             }
             6 => {
+                // one session: the scale value, then two conversions of `ans`.  A conversion is not a
+                // plain result, so `ans` stays the absolute temperature throughout.
+                let x = rat(ANS_XS[d[0] as usize].1, ANS_XS[d[0] as usize].2);
+                let (a, b, c) = (d[1] as usize, d[2] as usize, d[3] as usize);
+                let k = to_kelvin(a, &x);
+                out.outcome = "chain through ans".into();
+                ctx.save_previous_result = true;
+                ctx.previous_result = None;
+                let first = rink_core::eval(ctx, &format!("{} {}", ANS_XS[d[0] as usize].0, CANON[a]));
+                let second = rink_core::eval(ctx, &format!("ans -> {}", CANON[b]));
+                let third = rink_core::eval(ctx, &format!("ans -> {}", CANON[c]));
+                ctx.save_previous_result = false;
+                ctx.previous_result = None;
+                ctx.set_time(fixed_now());
+                let read = |r: &Result<QueryReply, QueryError>| -> Result<Rat, String> {
+                    match r {
+                        Ok(QueryReply::Conversion(cv)) => cv.value.raw_value.as_ref().and_then(|raw| numeric_to_rat(&raw.value)).ok_or_else(|| "no exact value".to_string()),
+                        Ok(o) => Err(format!("reply kind {}", reply_kind(o))),
+                        Err(e) => Err(format!("error: {}", e)),
+                    }
+                };
+                if first.is_err() {
+                    out = out.viol("scale operator refused a plain number", format!("{}: {:?}", q, first.err().map(|e| e.to_string())));
+                }
+                for (step, r, to) in [("second", &second, b), ("third", &third, c)] {
+                    let want = from_kelvin(to, &k);
+                    match read(r) {
+                        Ok(g) if g == want => {}
+                        Ok(g) => out = out.viol("chain of conversions through ans drifts", format!("{}: the {} step gives {} instead of {}", q, step, g, want)),
+                        Err(e) => out = out.viol("chain of conversions through ans failed", format!("{}: the {} step: {}", q, step, e)),
+                    }
+                }
+            }
+            7 => {
                 let x = rat(SEP_LITS[d[0] as usize].1, SEP_LITS[d[0] as usize].2);
                 let k = to_kelvin(SPELL[d[2] as usize].1, &x);
                 out.outcome = "number and scale with another separator".into();
